@@ -89,8 +89,10 @@ Qed.
 (* what "correct" means for a file system state                                               *)
 (* ------------------------------------------------------------------------------------------ *)
 
+(* `<key>`, when it exists, has a readable metadata file (it was renamed from a directory whose closing
+   flush succeeded): `find` answers without looking into `<key>_temp`, and `is_stored` never raises *)
 Definition final_has_meta (f : fs) : Prop :=
-  forall d, f_final f = Some d -> dlookup d FMeta <> None.
+  forall d, f_final f = Some d -> exists m, dlookup d FMeta = Some (CMeta (Some m)).
 
 Definition loads_correct (ex : list chunkspec) (f : fs) : Prop := load f = Ok (payloads ex).
 
@@ -128,7 +130,15 @@ Qed.
 Lemma meta_of_final f g : final_has_meta f -> f_final g = f_final f -> meta_of g = meta_of f.
 Proof.
   unfold final_has_meta, meta_of. intros H E. rewrite E. destruct (f_final f) as [d|]; [|reflexivity].
-  specialize (H d eq_refl). destruct (dlookup d FMeta); [reflexivity | contradiction].
+  destruct (H d eq_refl) as [m ->]. reflexivity.
+Qed.
+
+Lemma is_stored_ok f : final_has_meta f -> exists b, is_stored f = Ok b.
+Proof.
+  unfold final_has_meta, is_stored, find, meta_of. intros H.
+  destruct (f_final f) as [d|]; [|exists false; reflexivity].
+  destruct (H d eq_refl) as [m ->].
+  destruct (m_exc m); [exists false; reflexivity|]. destruct (m_ended m); cbn; eauto.
 Qed.
 
 Lemma find_final f g : final_has_meta f -> f_final g = f_final f -> find g = find f.
@@ -203,7 +213,7 @@ Lemma dir_valid_visible ex d t :
   ex <> [] -> dir_valid ex d -> fs_ok ex (mkFs t (Some d)).
 Proof.
   intros Hex (m & Hm & Hen & Hx). split.
-  - intros d' E. cbn in E. inversion E; subst. rewrite Hm. discriminate.
+  - intros d' E. cbn in E. inversion E; subst. eauto.
   - unfold visible, loads_correct, load, find, meta_of. cbn. rewrite Hm. cbn.
     destruct (m_exc m) eqn:Ee; [discriminate|]. rewrite Hen. cbn. intros _.
     destruct (Hx eq_refl) as [Hc Hf]. rewrite Hc.
